@@ -17,9 +17,20 @@ def family(tier, rng):
     keys = ["a", "b", "c"]
     F = []
 
-    def add(name, layers, defcfg=None):
-        d = {"keys": keys, "layers": layers, "defcfg": dict(defcfg or {})}
+    def add(name, layers, defcfg=None, ks=None, unmapped=None):
+        d = {"keys": ks or keys, "layers": layers, "defcfg": dict(defcfg or {})}
+        if unmapped:
+            d["unmapped"] = unmapped
         F.append((name, d))
+
+    # two keys holding the same layer: the layer lasts until both are released (each release undoes its own press)
+    add("two_holders", [{"a": LWH(1), "b": LWH(1), "c": K("x")},
+                        {"a": TR, "b": TR, "c": K("y")}])
+    # keys outside defsrc: pass through with process-unmapped-keys, no-op on every layer with block-unmapped-keys
+    add("unmapped_block", [{"a": LSW(1), "b": LWH(2)}, {"a": LSW(0), "b": TR}, {"a": K("x"), "b": TR}],
+        {"process-unmapped-keys": "yes", "block-unmapped-keys": "yes"}, ks=["a", "b"], unmapped=["c"])
+    add("unmapped_pass", [{"a": LSW(1), "b": LWH(2)}, {"a": LSW(0), "b": TR}, {"a": K("x"), "b": TR}],
+        {"process-unmapped-keys": "yes"}, ks=["a", "b"], unmapped=["c"])
 
     add("lwh_basic", [{"a": K("x"), "b": LWH(1), "c": K("c")},
                       {"a": K("1"), "b": TR, "c": MULTI(K("lctl"), K("z"))}])
@@ -90,9 +101,13 @@ def random_desc(rng, keys):
         cfg["delegate-to-first-layer"] = "yes"
     if rng.random() < 0.3:
         cfg["transparent-key-resolution"] = "to-base-layer"
+    d = {"keys": keys, "layers": layers, "defcfg": cfg}
     if rng.random() < 0.3:
         cfg["block-unmapped-keys"] = "yes"
-    return {"keys": keys, "layers": layers, "defcfg": cfg}
+    if rng.random() < 0.5:
+        cfg["process-unmapped-keys"] = "yes"
+        d["unmapped"] = ["q"]
+    return d
 
 
 def run(tier, seed):
@@ -106,7 +121,7 @@ def run(tier, seed):
     for name, desc in fam:
         kbd = cfgdesc.render_kbd(desc)
         params = cfgdesc.c04_params(desc)
-        keys = [cfgdesc.code(k) for k in desc["keys"]]
+        keys = [cfgdesc.code(k) for k in list(desc["keys"]) + list(desc.get("unmapped", []))]
         inst = {"name": "c04_" + name, "kbd": kbd, "keys": keys, "qmax": 3,
                 "monitor": {"module": "P_C04", "params": params}}
         r = mc.check_instance(inst, wd, workers=12, timeout=900)
@@ -131,7 +146,7 @@ def run(tier, seed):
             ks = allkeys[:rng.randint(2, 6)]
             desc = random_desc(rng, ks)
             kbd = cfgdesc.render_kbd(desc)
-            codes = [cfgdesc.code(k) for k in ks]
+            codes = [cfgdesc.code(k) for k in list(ks) + list(desc.get("unmapped", []))]
             scripts = [rand_history(rng, codes, rng.randint(5, 300), [0, 0, 1, 1, 2], tail=6) for _ in range(20)]
             jobs_random.append({"cfg": kbd, "params": cfgdesc.c04_params(desc), "tag": "rc:%d" % i, "scripts": scripts})
     for label, jobs in (("witness", witness_jobs), ("random", jobs_random)):
